@@ -1,4 +1,4 @@
-\* emission: alloc; any structural call; any call (observers included) - every offset and size
+\* emission, quick: one block; any structural call; then one read of 1 octet at every offset / size / size_linear
 SPECIFICATION MCSpec
 CONSTANTS
   Handles = {0, 1}
@@ -10,11 +10,14 @@ CONSTANTS
   MaxLen = 8
   MaxWins = 6
   Depth = 2
-  PatSet = "c02"
+  PatSet = "q"
   InitSet = "one"
   ObsLast = TRUE
   Rand = FALSE
   Letters = {0, 1}
+  LastOps = {"rd1", "size"}
+  LastSz = {1}
+  Dom = "all"
   Ops = {"alloc", "dup", "splice", "split", "copy", "merge", "append", "insert", "delete", "truncate", "resize", "prepend", "wmap", "poke", "free", "size", "read", "rd1", "peek", "extract", "iovec", "slin", "scan", "find", "compare", "equal", "match"}
 INVARIANT Emit
 CONSTRAINT Bounded
